@@ -169,7 +169,9 @@ def body_tdvp(c):
 def krylov_case(draw):
     dims = draw(st.sampled_from([d for d in DIMS if int(np.prod(d)) <= 16]))
     return {'dims': dims, 'cplx': draw(st.booleans()), 'seed': draw(gen.SEED), 'h': draw(st.sampled_from([0.05, 0.2, 0.5, 1.0])),
-            'rank': draw(st.sampled_from(['maximal', 'rank1', 'two'])), 'norm': draw(st.sampled_from([1.0, 1.0, 2.0, 0.5, 1e-6, 1e4]))}
+            'rank': draw(st.sampled_from(['maximal', 'rank1', 'two'])), 'norm': draw(st.sampled_from([1.0, 1.0, 2.0, 0.5, 1e-6, 1e4])),
+            # the Krylov propagator makes no use of a gauge: generic (non-orthonormal) cores, left-orthonormal cores
+            'gauge': draw(st.sampled_from(['right_orthonormal', 'generic', 'generic', 'left_orthonormal']))}
 
 
 def body_krylov(c):
@@ -181,6 +183,10 @@ def body_krylov(c):
     mr = dense.max_ranks(dims)
     ranks = mr if c['rank'] == 'maximal' else ([1] * (d + 1) if c['rank'] == 'rank1' else [1] + [min(2, r) for r in mr[1:-1]] + [1])
     x0 = initial_state(rng, dims, ranks, c['cplx'])
+    if c.get('gauge', 'right_orthonormal') == 'generic':
+        x0 = TT([np.array(cc) for cc in dense.gauge([np.array(cc) for cc in x0.cores], rng, c['cplx'])])
+    elif c.get('gauge') == 'left_orthonormal':
+        x0 = TT([np.array(cc) for cc in dense.qr_left([np.array(cc) for cc in x0.cores])])
     if c.get('norm', 1.0) != 1.0:
         # the equation is linear: an initial value ("initial value for ODE") of norm 2 or 1e-6 evolves like one of norm 1
         x0.cores[0] = x0.cores[0] * c['norm']
@@ -201,6 +207,8 @@ def body_krylov(c):
     lab = {'krylov', 'ranks_' + c['rank']}
     if c.get('norm', 1.0) != 1.0:
         lab.add('unnormalised_start')
+    if c.get('gauge', 'right_orthonormal') != 'right_orthonormal':
+        lab.add('start_not_right_orthonormal')
     if c['cplx']:
         lab.add('complex')
     if d >= 3:
